@@ -782,7 +782,7 @@ func genC11() *rapid.Generator[*Spec] {
 		case "ifaceconc":
 			// bind to another interface type that lacks a method
 			mn := x.fresh("MJ")
-			s.Decls = append(s.Decls, Decl{Pkg: typeMinPkg(s, it.Out, len(s.Pkgs)-1), Name: x.fresh("JX"), Form: "iface", IMeth: []string{mn}})
+			s.Decls = append(s.Decls, Decl{Pkg: len(s.Pkgs) - 1, Name: x.fresh("JX"), Form: "iface", IMeth: []string{mn}})
 			jx := len(s.Decls) - 1
 			s.Decls = append(s.Decls, Decl{Pkg: s.Decls[jx].Pkg, Name: x.fresh("JImpl"), Form: "struct", Fields: []SField{{Name: "Tok", T: Basic("int")}}, Methods: []Method{{Name: mn}}})
 			it.Conc = Named(jx)
